@@ -277,4 +277,27 @@ theorem relRange_chain (b : List Nat) (n i : Nat) (hi : i + 1 < n) :
   have h1 : i ≠ n - 1 := by omega
   simp only [ne_eq, h1, not_false_eq_true, if_true, Nat.add_one_ne_zero, Nat.mul_succ]
 
+/-! ### quote-aware records -/
+
+theorem joinLines_id (ls : List (List Nat)) (h : ∀ l ∈ ls, oddQuotes l = false) : joinLines [] ls = ls := by
+  induction ls with
+  | nil => simp [joinLines]
+  | cons l ls ih =>
+    have hl : oddQuotes l = false := h l (by simp)
+    simp only [joinLines, List.nil_append, hl]
+    rw [ih (fun x hx => h x (by simp [hx]))]
+    simp
+
+theorem rawRecords_eq_lines (s : List Nat) (h : ∀ l ∈ lines s, oddQuotes l = false) :
+    rawRecords s = lines s := by
+  unfold rawRecords
+  rw [splitLines_eq_lines s [] (by simp), List.nil_append]
+  exact joinLines_id _ h
+
+theorem filterMap_flatMap' {α β γ : Type} (l : List α) (g : α → List β) (f : β → Option γ) :
+    (l.flatMap g).filterMap f = l.flatMap (fun a => (g a).filterMap f) := by
+  induction l with
+  | nil => rfl
+  | cons x xs ih => simp [List.flatMap_cons, List.filterMap_append, ih]
+
 end Noir.CsvSplit
